@@ -15,6 +15,8 @@ func runC15(c *Ctx) {
 	c15Siblings(c)
 	c15MetadataBeforeBody(c, "R5-sibling-writers-read-header-timestamp")
 	c15HeaderTimestamp(c)
+	// the v0.3.x path applies the same "not after T" selection
+	v3TimestampEligibility(c)
 	// R4: T before the first backup fails: the plan must be non-empty (C08-R4 success condition)
 	plan := c.fnOpt("ls.CalcRestorePlan")
 	if plan != nil {
@@ -60,12 +62,12 @@ func c15FileReplica(c *Ctx) {
 		c.floor(rule, len(cht), 1, "os.Chtimes call in file WriteLTXFile")
 		rn := callsTo(w, nameIs("os.Rename"))
 		for _, call := range cht {
-			a := call.Common().Args
+			a := refArgs(call)
 			ok := len(a) == 3 && ts(a[1]) && ts(a[2])
 			c.check(ok, rule, fnName(w)+": os.Chtimes(filename, T, T) with T = time.UnixMilli(ltx header Timestamp)", c.pos(call), "provenance matches", "the file's mtime is not set from the LTX header timestamp")
 			// same path as the rename destination
 			for _, r := range rn {
-				c.check(len(a) == 3 && vIs(r.Common().Args[1])(a[0]) || sameValue(a[0], r.Common().Args[1]), rule, fnName(w)+": Chtimes applies to the published file name", c.pos(call), "same value as the rename destination", "Chtimes is applied to a different path than the published file")
+				c.check(len(a) == 3 && vIs(refArgs(r)[1])(a[0]) || sameValue(a[0], refArgs(r)[1]), rule, fnName(w)+": Chtimes applies to the published file name", c.pos(call), "same value as the rename destination", "Chtimes is applied to a different path than the published file")
 				c.check(dominates(r, call), rule, fnName(w)+": Chtimes follows the rename", c.pos(call), "dominated by the rename", "mtime is set before the file is published")
 			}
 			// every success return passes Chtimes nil edge
@@ -195,7 +197,7 @@ func c15HeaderTimestamp(c *Ctx) {
 		for _, f := range withClosures(fn) {
 			for _, call := range callsTo(f, nameIs("(*ltx.Encoder).EncodeHeader")) {
 				n++
-				flds := compositeFields(call.Common().Args[1])
+				flds := compositeFields(refArgs(call)[1])
 				ts := flds["Timestamp"]
 				ok := false
 				for _, o := range origins(ts) {
